@@ -161,9 +161,17 @@ func containsName(v reflect.Value, name string, seen map[unsafe.Pointer]bool) bo
 		if v.IsNil() {
 			return false
 		}
+		isMeta := v.Type().Name() == "MetaExpr" && strings.HasPrefix(v.Type().PkgPath(), "goa.design/goa/v3")
 		it := v.MapRange()
 		for it.Next() {
-			if containsName(it.Key(), name, seen) || containsName(it.Value(), name, seen) {
+			val := it.Value()
+			if isMeta && it.Key().Kind() == reflect.String && it.Key().String() == "view" && val.Kind() == reflect.Slice && val.Len() > 1 {
+				// View(name) selects the one view an attribute / result is rendered with; the
+				// selection is the last value (a later View call replaces an earlier one), the
+				// values before it are history, not references
+				val = val.Index(val.Len() - 1)
+			}
+			if containsName(it.Key(), name, seen) || containsName(val, name, seen) {
 				return true
 			}
 		}
